@@ -159,7 +159,14 @@ func (ex *Exec) invokeOne(st *State, al FuncAlt, args []Value, cc *ssa.CallCommo
 	}
 	if h, ok := intrinsics[name]; ok {
 		ex.Intrinsics[name]++
+		internal := strings.HasPrefix(name, "(*sync.")
+		if internal {
+			st.syncInternal = true
+		}
 		v, done := h(ex, &callCtx{st: st, fn: fn, args: full, cc: cc, ret: ret, discard: discard, pos: pos, inDefer: inDefer})
+		if internal {
+			st.syncInternal = false
+		}
 		if !done {
 			return false
 		}
